@@ -95,7 +95,7 @@ theorem indexedSubBody_spec {β} (indices : List Int) (values : List β) (map_ :
     (sS sE : Nat) (o : IO β) (esL : List (List β))
     (hok : IndexedOK indices values) (hse : sS < sE) (hsE : sE ≤ map_.length) (hcs : map_.length ≤ cs)
     (hesLen : esL.length = map_.length)
-    (hr : InRange (entries indices values).length map_ inv) (hm : ValidMonotone map_ inv)
+    (hr : InRange (entries indices values).length map_ inv) (hm : MonoOn map_ inv sS sE)
     (hes : ∀ (p : Nat) (k : Int), map_[p]? = some k → esL[p]? = lookup (entries indices values) inv [] k) :
     (∃ o', indexedSubBody indices values map_ inv cs vf (sS, sE) o = .ok o' ∧ Adds esL sS sE o o' ∧
       ∀ x ∈ slice esL sS sE, x.length ≤ cs * vf) ∨
@@ -129,7 +129,7 @@ theorem indexedSubBody_spec {β} (indices : List Int) (values : List β) (map_ :
   · have hne' : (d.1 == inv) = false := by simpa using hne
     obtain ⟨hf0, hfn⟩ := hr p0 d.1 hm0 hne
     obtain ⟨hl0, hln⟩ := hr p1 d.2 hm1 hne2
-    have hfl : d.1 ≤ d.2 := hm p0 p1 d.1 d.2 hp01 hm0 hm1 hne hne2
+    have hfl : d.1 ≤ d.2 := hm p0 p1 d.1 d.2 hp0 hp01 hp1 hm0 hm1 hne hne2
     rw [entries_length] at hfn hln
     -- the offsets window
     have hN : (d.2 - d.1 + 1).toNat = d.2.toNat - d.1.toNat + 1 := by omega
@@ -154,8 +154,8 @@ theorem indexedSubBody_spec {β} (indices : List Int) (values : List β) (map_ :
         0 ≤ k ∧ (entries indices values)[k.toNat]? = some (wentry ix values (k - d.1).toNat) := by
       intro p k hp1' hp2' hpk hki
       obtain ⟨b1, b2⟩ := hbetween p k hp1' hp2' hpk hki
-      have c1 := hm p0 p d.1 k b1 hm0 hpk hne hki
-      have c2 := hm p p1 k d.2 b2 hpk hm1 hki hne2
+      have c1 := hm p0 p d.1 k hp0 b1 hp2' hm0 hpk hne hki
+      have c2 := hm p p1 k d.2 hp1' b2 hp1 hpk hm1 hki hne2
       have hk0 : 0 ≤ k := by omega
       have hj : (k - d.1).toNat < N0 + 1 := by omega
       have := wentry_window indices values d.1.toNat (N0 + 1) (k - d.1).toNat hj hwinlen
@@ -168,8 +168,8 @@ theorem indexedSubBody_spec {β} (indices : List Int) (values : List β) (map_ :
       (by
         intro p k hp1' hp2' hpk hki
         obtain ⟨b1, b2⟩ := hbetween p k hp1' hp2' hpk hki
-        have c1 := hm p0 p d.1 k b1 hm0 hpk hne hki
-        have c2 := hm p p1 k d.2 b2 hpk hm1 hki hne2
+        have c1 := hm p0 p d.1 k hp0 b1 hp2' hm0 hpk hne hki
+        have c2 := hm p p1 k d.2 hp1' b2 hp1 hpk hm1 hki hne2
         omega)
       hm
       (by
